@@ -72,6 +72,7 @@ var outerT *testing.T
 
 var dbgSigs = os.Getenv("ATREST_SIGS") != ""
 
+
 func TestAtRest(t *testing.T) {
 	outerT = t
 	rapid.Check(t, runAtRest)
@@ -143,6 +144,10 @@ type world struct {
 	msgLen     int
 	weakExpect string // set while a fault-free image with an ENABLED hand-built weak key is being read
 	idCtr      uint64
+
+	header       []string // trace lines of the shared set-up, repeated in the trace of every experiment
+	other        []byte   // a second stored keyset (splices), built on first use
+	otherClasses []string
 }
 
 type built struct {
@@ -288,7 +293,7 @@ func (w *world) buildKeyset(label string, maxKeys int, fixedClass string) *built
 		}
 		classSet[c] = true
 		b.keyTypes = append(b.keyTypes, e.KeyType)
-		w.r.Logf("  %s key %d: %s (id %d)", label, i, e.Name, id)
+		w.logf("  %s key %d: %s (id %d)", label, i, e.Name, id)
 	}
 	if err := m.SetPrimary(first); err != nil {
 		t.Fatalf("harness: %v", err)
@@ -690,9 +695,10 @@ func runAtRest(t *rapid.T) {
 	defer simrng.Install(g)()
 	w := &world{r: r, t: t, g: g}
 	w.cfg.format = rapid.SampledFrom([]string{"binary", "json"}).Draw(t, "format")
-	w.cfg.prot = rapid.SampledFrom([]string{"clear", "encrypted", "public"}).Draw(t, "protection")
+	w.cfg.prot = rapid.SampledFrom([]string{"clear", "clear", "clear", "public", "public", "encrypted"}).Draw(t, "protection")
 	w.msgLen = rapid.SampledFrom([]int{0, 1, 33}).Draw(t, "msgLen")
-	if w.cfg.prot == "encrypted" {
+	{
+		// the key-encryption AEAD (also needed to read a cleartext image with the wrong reader)
 		e, _ := catalog.Find("aead/aesgcm/k32-iv12-t16/TINK")
 		k, err := catalog.NewKey(e)
 		if err != nil {
@@ -707,99 +713,130 @@ func runAtRest(t *rapid.T) {
 		}
 		w.ad = rapid.SampledFrom([][]byte{nil, []byte("ad"), []byte("keyset-associated-data-0123456789")}).Draw(t, "kekAD")
 	}
-	plan := rapid.SampledFrom([]string{"none", "medium", "medium", "medium", "medium", "medium", "medium", "cut", "cut", "torn-write", "struct", "struct", "wrong-reader", "weak", "weak"}).Draw(t, "plan")
-	r.Logf("format=%s protection=%s plan=%s", w.cfg.format, w.cfg.prot, plan)
+	w.logf("format=%s protection=%s", w.cfg.format, w.cfg.prot)
 
-	var b *built
-	direct := false
+	// one keyset, written once by the real writer; then several independent storage experiments on its image
+	b := w.buildKeyset("A", 5, "")
+	medium, err := w.store(b, false, -1)
+	if err != nil {
+		t.Fatalf("harness: fault-free write failed: %v", err)
+	}
+	w.logf("stored %d bytes: %s", len(medium), core.Hex(medium, 64))
+	orig := shapeOf(b.h)
+	kt := dedupe(sorted(b.keyTypes))
+
+	nExp := rapid.IntRange(1, 6).Draw(t, "experiments")
+	for x := 0; x < nExp; x++ {
+		if x > 0 {
+			r = core.Begin(t)
+			w.r = r
+			for _, l := range w.header {
+				r.Logf("%s", l)
+			}
+		}
+		r.ObsS("keyset", strings.Join(b.keyTypes, ","))
+		r.ObsI("medium-len", int64(len(medium)))
+		sig, nontrivial := w.experiment(b, medium, orig)
+		if dbgSigs {
+			r.SetAdd("sigs", fmt.Sprintf("%s|%s|%s", w.cfg.format, strings.Join(kt, ","), sig))
+		}
+		r.End(fmt.Sprintf("%s|%s|%s", w.cfg.format, strings.Join(kt, ","), sig), nontrivial || len(b.special) > 0)
+	}
+}
+
+func (w *world) logf(format string, args ...any) {
+	if w.r.Tracing() {
+		l := fmt.Sprintf(format, args...)
+		w.header = append(w.header, l)
+		w.r.Logf("%s", l)
+	}
+}
+
+var plans = []string{"none", "medium", "medium", "medium", "medium", "medium", "medium", "medium", "medium", "cut", "torn-write", "struct", "struct", "wrong-reader", "weak", "weak"}
+
+// experiment runs one storage experiment on the stored image of b and returns
+// the rest of the run signature.
+func (w *world) experiment(b *built, medium []byte, orig *shape) (string, bool) {
+	t, r := w.t, w.r
+	plan := rapid.SampledFrom(plans).Draw(t, "plan")
+	r.Logf("--- experiment: %s", plan)
+	saved := w.cfg
+	defer func() { w.cfg = saved }()
+
 	var fired []applied
-	weakName := ""
+	written := b.classes
+	keyNote := ""
 	switch plan {
 	case "weak":
-		b, weakName = w.buildWeak()
-		direct = true
-		fired = append(fired, applied{"weak-key", weakName, ""})
+		// a keyset of its own: one hand-built key below the minimum strengths, maybe next to good keys
+		var name string
+		b, name = w.buildWeak()
+		fired = append(fired, applied{"weak-key", name, ""})
 		r.Fault("weak-key")
 		r.Probe("weak-key-reached")
-	default:
-		b = w.buildKeyset("A", 5, "")
-	}
-	if plan == "struct" {
+		written, orig, keyNote = b.classes, nil, "weak"
+		var err error
+		if medium, err = w.store(b, true, -1); err != nil {
+			core.CountGlobal("direct-write-refused")
+			return "weak-key@" + name + "|write-refused", true
+		}
+	case "struct":
 		kind := rapid.SampledFrom(structEdits).Draw(t, "structEdit")
 		ks := proto.Clone(b.ks).(*tinkpb.Keyset)
 		if w.applyStruct(kind, ks) {
 			b = &built{ks: ks, keyTypes: b.keyTypes, classes: b.classes, special: b.special}
-			direct = true
 			fired = append(fired, applied{kind, "proto", ""})
 			r.Fault(kind)
-		}
-	}
-	var orig *shape
-	if !direct {
-		orig = shapeOf(b.h)
-	}
-	written := b.classes
-	r.ObsS("keyset", strings.Join(b.keyTypes, ","))
-
-	// write
-	failAt := -1
-	var medium []byte
-	if plan == "torn-write" {
-		full, err := w.store(b, direct, -1)
-		if err != nil {
-			t.Fatalf("harness: fault-free write failed: %v", err)
-		}
-		// the same write again (same RNG position is not needed: only the length matters for the cut), torn at c
-		l := walk(w.cfg.format, w.cfg.prot == "encrypted", full)
-		bs := l.boundsUpTo(9)
-		if len(bs) > 0 && rapid.Bool().Draw(t, "tornAtBoundary") {
-			failAt = bs[rapid.IntRange(0, len(bs)-1).Draw(t, "tornBound")]
-		} else {
-			failAt = rapid.IntRange(0, len(full)).Draw(t, "tornAt")
-		}
-		if failAt >= len(full) {
-			failAt = len(full) - 1
-		}
-		if failAt < 0 {
-			failAt = 0
-		}
-		if w.cfg.prot == "encrypted" {
-			// a second encryption would draw a new nonce; tear the bytes of the first one on a device instead
-			dev := simio.NewDevice(failAt, true)
-			_, werr := dev.Write(full)
-			medium = dev.Buf
-			if werr == nil {
-				t.Fatalf("harness: device did not fail")
+			orig = nil
+			var err error
+			if medium, err = w.store(b, true, -1); err != nil {
+				core.CountGlobal("direct-write-refused")
+				return kind + "@proto|write-refused", true
 			}
+		}
+	case "torn-write":
+		// the device fails at c and keeps what fitted: the medium holds a prefix of the image
+		l := walk(w.cfg.format, w.cfg.prot == "encrypted", medium)
+		var failAt int
+		switch rapid.IntRange(0, 2).Draw(t, "tornWhere") {
+		case 0:
+			bs := l.boundsUpTo(2)
+			failAt = bs[rapid.IntRange(0, len(bs)-1).Draw(t, "tornBound")]
+		case 1:
+			bs := l.boundsUpTo(9)
+			failAt = bs[rapid.IntRange(0, len(bs)-1).Draw(t, "tornBound")]
+		default:
+			failAt = rapid.IntRange(0, len(medium)).Draw(t, "tornAt")
+		}
+		failAt = max(0, min(failAt, len(medium)-1))
+		if w.cfg.prot == "encrypted" {
+			// writing again would encrypt again (new nonce): tear the bytes of the first write on a device instead
+			dev := simio.NewDevice(failAt, true)
+			if _, werr := dev.Write(medium); werr == nil {
+				t.Fatalf("harness: the device did not fail")
+			}
+			medium = dev.Buf
 		} else {
-			var werr error
-			medium, werr = w.store(b, direct, failAt)
+			torn, werr := w.store(b, false, failAt)
 			if werr == nil {
 				r.Logf("note: the writer reported success although the device failed at %d", failAt)
 			}
+			if string(torn) != string(medium[:failAt]) {
+				t.Fatalf("harness: the torn write left %d bytes that are not the prefix [0,%d) of the full image", len(torn), failAt)
+			}
+			medium = torn
 		}
-		fired = append(fired, applied{fTornWrite, "device", fmt.Sprintf("device failed at %d of %d", failAt, len(full))})
+		fired = append(fired, applied{fTornWrite, "device", fmt.Sprintf("device failed at %d", failAt)})
 		r.Fault(fTornWrite)
 		r.Probe("torn-write-prefix-read-back")
-	} else {
-		var err error
-		medium, err = w.store(b, direct, -1)
-		if err != nil {
-			if direct {
-				// the writer may refuse a hand-built keyset; nothing was stored
-				core.CountGlobal("direct-write-refused")
-				t.Skip("writer refused the hand-built keyset")
-			}
-			t.Fatalf("harness: fault-free write failed: %v", err)
-		}
 	}
-	r.ObsI("medium-len", int64(len(medium)))
-	r.Logf("stored %d bytes: %s", len(medium), core.Hex(medium, 64))
+	if w.r.Tracing() && (plan == "weak" || plan == "struct" || plan == "torn-write") {
+		r.Logf("stored %d bytes: %s", len(medium), core.Hex(medium, 64))
+	}
 
 	readProt := w.cfg.prot
 	var outcomes []string
-	switch plan {
-	case "cut":
+	if plan == "cut" {
 		sc := w.drawSrc(len(medium))
 		cuts, cls := w.cutPoints(medium)
 		r.Fault(fCut)
@@ -814,35 +851,29 @@ func runAtRest(t *rapid.T) {
 			counts[cls[i]+":"+strings.SplitN(o, ":", 2)[0]]++
 		}
 		fired = append(fired, applied{fCut, "all-boundaries", fmt.Sprintf("%d cuts", len(cuts))})
-		var cs []string
-		for _, k := range core.SortedKeys(counts) {
-			cs = append(cs, k)
-		}
-		outcomes = append(outcomes, strings.Join(cs, ","))
-		if acc > 3 {
-			acc = 3
-		}
-		outcomes = append(outcomes, fmt.Sprintf("acc%d", acc))
-	default:
+		outcomes = append(outcomes, strings.Join(core.SortedKeys(counts), ","), fmt.Sprintf("acc%d", min(acc, 3)))
+	} else {
 		img := medium
 		if plan == "medium" {
-			var other []byte
-			nF := rapid.IntRange(1, 3).Draw(t, "nFaults")
+			nF := rapid.SampledFrom([]int{1, 1, 1, 1, 2, 3}).Draw(t, "nFaults")
 			for i := 0; i < nF; i++ {
-				kind := rapid.SampledFrom(mediumFaults).Draw(t, "faultKind")
-				if kind == fSplice && other == nil {
+				kind := rapid.SampledFrom(mediumFaultsWeighted).Draw(t, "faultKind")
+				if kind == fSplice && w.other == nil {
 					cls := ""
 					if len(b.classes) > 0 {
 						cls = b.classes[0]
 					}
 					b2 := w.buildKeyset("B", 3, cls)
 					var err error
-					if other, err = w.store(b2, false, -1); err != nil {
+					if w.other, err = w.store(b2, false, -1); err != nil {
 						t.Fatalf("harness: fault-free write failed: %v", err)
 					}
-					written = append(append([]string{}, written...), b2.classes...)
+					w.otherClasses = b2.classes
 				}
-				out, a, ok := w.applyFault(kind, img, other, fmt.Sprintf("f%d", i))
+				if kind == fSplice {
+					written = append(append([]string{}, written...), w.otherClasses...)
+				}
+				out, a, ok := w.applyFault(kind, img, w.other, fmt.Sprintf("f%d", i))
 				if !ok {
 					continue
 				}
@@ -853,12 +884,8 @@ func runAtRest(t *rapid.T) {
 			}
 		}
 		if plan == "wrong-reader" {
-			prots := []string{"clear", "public", "encrypted"}
-			if w.kek == nil {
-				prots = prots[:2]
-			}
 			var others []string
-			for _, p := range prots {
+			for _, p := range []string{"clear", "public", "encrypted"} {
 				if p != w.cfg.prot {
 					others = append(others, p)
 				}
@@ -896,10 +923,6 @@ func runAtRest(t *rapid.T) {
 		}
 	}
 
-	// signature
-	kt := append([]string{}, b.keyTypes...)
-	sort.Strings(kt)
-	kt = dedupe(kt)
 	var fs []string
 	for _, a := range fired {
 		fs = append(fs, a.kind+"@"+a.target)
@@ -908,11 +931,13 @@ func runAtRest(t *rapid.T) {
 	if readProt != prot {
 		prot += ">" + readProt
 	}
-	sig := fmt.Sprintf("%s|%s|%s|%s|%s", w.cfg.format, prot, strings.Join(kt, ","), strings.Join(fs, "+"), strings.Join(outcomes, ";"))
-	if dbgSigs {
-		r.SetAdd("sigs", sig)
-	}
-	r.End(sig, len(fired) > 0 || r.FaultsFired() > 0 || len(b.special) > 0)
+	return fmt.Sprintf("%s%s|%s|%s", prot, keyNote, strings.Join(fs, "+"), strings.Join(outcomes, ";")), len(fired) > 0 || r.FaultsFired() > 0
+}
+
+func sorted(l []string) []string {
+	out := append([]string{}, l...)
+	sort.Strings(out)
+	return out
 }
 
 func contains(l []string, s string) bool {
